@@ -6,6 +6,7 @@ package gen
 
 import (
 	"fmt"
+	wrktypes "github.com/unification-com/mainchain/x/wrkchain/types"
 	"strings"
 
 	sdk "github.com/cosmos/cosmos-sdk/types"
@@ -21,6 +22,7 @@ const walkCap = 200
 type qreg struct {
 	id, first, last, num uint64
 	owner, moniker       string
+	held                 []uint64 // WRKChains: (some of) the heights held in state — they need not be contiguous
 }
 
 // qview is the committed state the query generator draws identifiers from.
@@ -50,7 +52,15 @@ func newQView(r *real.Runner) *qview {
 		v.locked = append(v.locked, sym.TokString(s.Owner))
 	}
 	for _, c := range a.WrkchainKeeper.GetAllWrkChains(ctx) {
-		v.wrk = append(v.wrk, qreg{id: c.WrkchainId, first: c.LowestHeight, last: c.Lastblock, num: c.NumBlocks, owner: sym.TokString(c.Owner), moniker: script.Tok(c.Moniker)})
+		r := qreg{id: c.WrkchainId, first: c.LowestHeight, last: c.Lastblock, num: c.NumBlocks, owner: sym.TokString(c.Owner), moniker: script.Tok(c.Moniker)}
+		func() {
+			defer func() { _ = recover() }()
+			a.WrkchainKeeper.IterateWrkChainBlockHashes(ctx, c.WrkchainId, func(b wrktypes.WrkChainBlock) bool {
+				r.held = append(r.held, b.Height)
+				return len(r.held) >= 64
+			})
+		}()
+		v.wrk = append(v.wrk, r)
 	}
 	v.wrkNext, _ = a.WrkchainKeeper.GetHighestWrkChainID(ctx)
 	for _, b := range a.BeaconKeeper.GetAllBeacons(ctx) {
@@ -134,6 +144,11 @@ func (q *qgen) addr(all []string) string {
 		}
 	}
 	x := g.rng.Intn(100)
+	for _, t := range live {
+		if t[0] == 'L' && g.chance(15) { // long addresses around: ask for their relatives (shared prefix / suffix) too
+			return g.pick(real.LongTokens...)
+		}
+	}
 	switch {
 	case x < 55 && len(live) > 0:
 		return g.pick(live...)
@@ -146,8 +161,10 @@ func (q *qgen) addr(all []string) string {
 		return fmt.Sprintf("U%d", g.anyAcct())
 	case x < 82:
 		return A(g.anyAcct())
-	case x < 92:
+	case x < 88:
 		return g.pick(real.ModuleTokens...)
+	case x < 92:
+		return g.pick(real.LongTokens...)
 	case x < 96:
 		return "X"
 	}
@@ -171,6 +188,9 @@ func (q *qgen) regID(items []qreg, next uint64) (qreg, string) {
 // or absent (pruned, beyond the last one, zero, maximal).
 func (q *qgen) sub(it qreg) string {
 	g := q.g
+	if len(it.held) > 0 && g.chance(50) {
+		return u(it.held[g.rng.Intn(len(it.held))])
+	}
 	if it.num > 0 && it.last >= it.first && g.chance(65) {
 		return u(it.first + uint64(g.rng.Int63n(int64(minU(it.last-it.first, 1<<20)+1))))
 	}
